@@ -591,6 +591,10 @@ def check_ops_equal(got, ref):
 
 def run(ctx):
     run_binary(ctx)
+    # >>> a_c08 (wave 4): clauses audit/C08.md found uncovered (props/C08_more.py)
+    from props import C08_more
+    C08_more.run_more(ctx)
+    # <<< a_c08
 
 
 def search(ctx):
